@@ -435,6 +435,7 @@ func replayBehaviour(w *srvWorld, bh *specBehaviour, allKeys map[string]bool) (m
 	awaitDone := make(chan struct{})
 	stopRequested := false
 	proverSeenUp := false
+	refusedOK := map[string]bool{}
 
 	settle := func(i int, o *specObs) bool {
 		exp := make([]string, 0, len(o.Waiting))
@@ -571,6 +572,7 @@ func replayBehaviour(w *srvWorld, bh *specBehaviour, allKeys map[string]bool) (m
 			case "send", "send-refused":
 				id := st.Who
 				refused := st.Name == "send-refused"
+				refusedOK[id] = refused
 				cmu.Lock()
 				results[id] = &clientResult{}
 				cmu.Unlock()
@@ -599,6 +601,36 @@ func replayBehaviour(w *srvWorld, bh *specBehaviour, allKeys map[string]bool) (m
 	}
 	// drain whatever is left so that the instance goes away before the next behaviour
 	g.openAll()
+	// Whatever the schedule was (even one the real code could not follow), every request that was sent to a listening
+	// server must have been answered according to ITS OWN oracle: the expected answer does not depend on the interleaving.
+	dl := time.Now().Add(90 * time.Second)
+	for time.Now().Before(dl) {
+		cmu.Lock()
+		pending := 0
+		for id, cr := range results {
+			if !refusedOK[id] && !cr.Done {
+				pending++
+			}
+		}
+		cmu.Unlock()
+		if pending == 0 {
+			break
+		}
+		time.Sleep(5 * time.Millisecond)
+	}
+	cmu.Lock()
+	for id, cr := range results {
+		if refusedOK[id] {
+			continue
+		}
+		b := reqs[id]
+		if !cr.Done {
+			mm = append(mm, mismatch{Kind: "response", Step: -1, Detail: fmt.Sprintf("client %s (%s %s) never received an answer", id, b.kind.Method, b.kind.Body)})
+		} else if cr.Err != "" || cr.Status != b.expStat || (b.expStat != 405 && cr.Code != b.expCode) || (b.expStat == 200 && !cr.ProofOK) {
+			mm = append(mm, mismatch{Kind: "response", Step: -1, Detail: fmt.Sprintf("client %s (%s %s): final answer %d %s err=%q %s differs from its own request's oracle %d %s", id, b.kind.Method, b.kind.Body, cr.Status, cr.Code, cr.Err, cr.Detail, b.expStat, b.expCode), Got: cr})
+		}
+	}
+	cmu.Unlock()
 	if !stopRequested {
 		go func() {
 			job.RequestStop()
